@@ -51,3 +51,73 @@ PROPS['C06'] = {
                     'the sink (BaseCborOutputWriter) is a ghost accumulator: write() appends, never throws (failures: C16)',
                     'write_bytestring/textstring head thresholds: strings >= 64 KiB (3-byte heads and wider) are outside the string-length bound; the same threshold code is exercised with 64-bit sizes through write_array_start/write_map_start'],
 }
+
+
+# ------------------------------------------------------------------------------------------ U2 decoder
+DEC_FUNCS = ['CdnsDecoder::peek_type', 'CdnsDecoder::read_unsigned', 'CdnsDecoder::read_negative', 'CdnsDecoder::read_integer',
+             'CdnsDecoder::read_bool', 'CdnsDecoder::read_bytestring', 'CdnsDecoder::read_textstring', 'CdnsDecoder::read_array_start',
+             'CdnsDecoder::read_map_start', 'CdnsDecoder::read_break', 'CdnsDecoder::skip_item', 'CdnsDecoder::read_cbor_type',
+             'CdnsDecoder::read_int', 'CdnsDecoder::read_string', 'CdnsDecoder::read_to_buffer', 'CdnsDecoder::CdnsDecoder']
+SKIP_REDIRECT = ('_ZN4CDNS11CdnsDecoder9skip_itemEv=skip_item__contract@self',)
+
+
+def dec_obls(groups):
+    o = []
+    prims = ['unsigned_', 'negative', 'integer', 'array_start', 'map_start', 'break_', 'bool_', 'peek']
+    # (window, max remaining input bytes, tiers)
+    prim_cfg = [(2, 6, ('quick',)), (1, 12, ('thorough',)), (2, 12, ('thorough',)), (5, 12, ('thorough',)), (16, 12, ('thorough',))]
+    str_cfg = [(1, 5, ('quick',)), (2, 6, ('thorough',)), (3, 7, ('thorough',))]
+    skip_cfg = [(1, 5, ('quick',)), (2, 7, ('thorough',)), (5, 8, ('thorough',))]
+    if 'prim' in groups:
+        for bs, maxin, tiers in prim_cfg:
+            d = ['CDNS_VERIF_DECODER_BUFFER_SIZE=%d' % bs, 'DEC_MAXIN=%d' % maxin]
+            us = {r'read_to_buffer': bs + 1, r'CdnsDecoder\d+(read_|skip_)': 9, r'prim_op|ref_head': 9, r'__v_mem': 17}
+            for h in prims:
+                o.append(Obl('dec_%s_w%d_n%d' % (h, bs, maxin), 'dec.cpp', 'h_dec_' + h, unwind=max(maxin, bs) + 2, defines=d, tiers=tiers, unwindset=us,
+                             redirect=SKIP_REDIRECT, timeout=900,
+                             desc='one call from any I_dec state (window offset/fill symbolic, stale bytes unconstrained, stream good/eof/unreadable) on an arbitrary '
+                                  'remaining input of 0..%d symbolic bytes vs a reference RFC 8949 parser: End iff truncated, value+exact consumption iff well-formed' % maxin,
+                             bounds={'window (BUFFER_SIZE)': bs, 'remaining input bytes': '0..%d' % maxin, 'head widths': 'all (ai 0..31)'}, functions=DEC_FUNCS))
+    if 'string' in groups:
+        for bs, maxin, tiers in str_cfg:
+            d = ['CDNS_VERIF_DECODER_BUFFER_SIZE=%d' % bs, 'DEC_MAXIN=%d' % maxin]
+            us = {r'read_to_buffer': bs + 1, r'ref_head': 9, r'__v_mem': 17}
+            for h in ('bytestring', 'textstring'):
+                o.append(Obl('dec_%s_w%d_n%d' % (h, bs, maxin), 'dec.cpp', 'h_dec_' + h, unwind=maxin + 2, defines=d, tiers=tiers, unwindset=us, timeout=2400,
+                             redirect=SKIP_REDIRECT, mem_gb=20,
+                             desc='definite and chunked strings on arbitrary remaining input of 0..%d bytes: concatenated payload returned, exact consumption, End iff truncated' % maxin,
+                             bounds={'window': bs, 'remaining input bytes': '0..%d' % maxin, 'chunks': 'any number that fits'}, functions=DEC_FUNCS))
+    if 'skip' in groups:
+        for bs, maxin, tiers in skip_cfg:
+            d = ['CDNS_VERIF_DECODER_BUFFER_SIZE=%d' % bs, 'DEC_MAXIN=%d' % maxin]
+            for h in ('skip_array', 'skip_map', 'skip_indef_array', 'skip_indef_map', 'skip_tag', 'skip_leaf', 'skip_any'):
+                us = {r'read_to_buffer': bs + 1, r'ref_head': 9, r'__v_mem': 17, r'skip_item__contract': 4}
+                if h not in ('skip_leaf', 'skip_any'):
+                    us[r'read_string'] = 1      # string paths are infeasible under the harness assumptions (checked by the unwinding assertions)
+                o.append(Obl('dec_%s_w%d_n%d' % (h, bs, maxin), 'dec.cpp', 'h_dec_' + h, unwind=maxin + 2, defines=d, tiers=tiers, unwindset=us, timeout=2400,
+                             redirect=SKIP_REDIRECT, mem_gb=20,
+                             desc='skip_item body with the recursive call replaced by its contract (consume exactly one opaque child of 1..3 bytes): consumes exactly the item',
+                             bounds={'window': bs, 'children': '0..3 (maps 0..1 pairs)', 'child length': '1..3 bytes', 'remaining input bytes': '0..%d' % maxin},
+                             functions=DEC_FUNCS))
+    return o
+
+
+DEC_ASSUME = ['decoder window hooked to small BUFFER_SIZE values (CDNS_VERIF_DECODER_BUFFER_SIZE); 65535 is outside the solver bound (CBMC flattens the array: 31 GB, no verdict)',
+              'std::istream model: read() extracts min(n, remaining) if good(), sets eofbit|failbit iff short, extracts nothing and sets failbit if not good()',
+              'skip_item recursion: verified body-wise against the contract "consumes exactly one well-formed item"; unbounded nesting follows by structural induction (stack depth: separate obligation)',
+              'message formatting (std::to_string, operator+) has empty bodies']
+
+PROPS['C05'] = {
+    'obligations': dec_obls(('prim', 'string', 'skip')),
+    'explanation': 'End-of-input detection is decided on the decoder primitives: from every state of I_dec whose abstract remaining input is shorter than the '
+                   'operation needs (empty input, exhausted-but-no-eofbit stream, unreadable stream, every window offset) the primitive must throw CdnsDecoderEnd; '
+                   'stale window bytes are unconstrained so any dependence on them is a counterexample. CdnsReader::read_block only composes these primitives '
+                   '(structural obligation: no catch clause on the read path).',
+    'assumptions': DEC_ASSUME,
+}
+PROPS['C07'] = {
+    'obligations': dec_obls(('prim', 'string', 'skip')),
+    'explanation': 'Every read operation is run once on arbitrary remaining input against a reference RFC 8949 parser: all head widths (preferred or not), '
+                   'all window offsets; strings definite and chunked; skip_item per item kind with the recursive call replaced by its contract.',
+    'assumptions': DEC_ASSUME,
+}
